@@ -93,7 +93,7 @@ EXTRA = {
     "C13": "Also: an error raised inside update() reaches the caller of solve(); material sweep with screening before the monitored run.",
     "C14": "Also: film polygons with names of the user's choosing; every step a loaded object is moved to equals data/<s> of its file.",
     "C15": "Also: a stopped run's partial solution reports as many frame times as it has frames, each equal to the stored one; an earlier result at the requested path still held open by the caller.",
-    "C16": "Also: neutral numbers (1, 1.0) on either side of every operator; repeated evaluation at close times and at times whose Python hashes coincide (-1.0 / -2.0); leaves from one closure factory; use_cache=False operands.",
+    "C16": "Also: neutral numbers (1, and 0.5, 3, 0.25) on either side of every operator; repeated evaluation at close times and at times whose Python hashes coincide (-1.0 / -2.0); leaves from one closure factory; use_cache=False operands.",
     "C17": "Also: thermalised undriven runs.",
     "C19": "Also: set operations whose result is not a simply-connected outline (ring, two pieces, nothing) are refused in every spelling.",
 }
